@@ -13,6 +13,19 @@ Extracted (fail closed on any other shape):
   stored / the steps are computed; a guard-shaped statement after that point is refused.
 * `Detector.empty(reset)`         (pyxel/detectors/detector.py) -> which containers are emptied always and
   which only under `if reset:`.
+* every container's `empty()` (`Photon.empty`, `Charge.empty`, `ArrayBase.empty` / an override in `Pixel`, `Signal`,
+  `Image`; `Scene()` resp. `Scene.empty`) -> a program over the PIECES of state the container holds (Charge: `_array`
+  AND `_frame`): sequence of if / elif / else chains whose branches re-initialise pieces; the tests may only ask
+  whether a piece holds something.  The attributes assigned in each container's `__init__` must be the known ones
+  (a new data attribute is refused).  Whether the `Charge.array` property stores the array derived from the particles
+  back into `_array` (e_read_stores).  An `empty()` override in a Detector subclass (CCD / CMOS / MKID / APD) must call
+  `super().empty(reset)` first and must not touch the six containers.
+* the readout loop of `exposure.run_pipeline` and of its deprecated copy `_run_exposure_pipeline_deprecated`: one
+  `for i, (time, step) in enumerate(zip(rp.times, rp.steps))` whose body stores time / time_step / pipeline_count from the
+  loop variables and calls `detector.empty(<flag>)` once, before `processor.run_pipeline`; -> e_init_reset (is there a
+  plain `detector.empty()` between set_readout and the loop), e_loop_reset (what <flag> says: `not
+  detector.non_destructive_readout`, directly / through a local variable / through an if-else = LIfDestructive, ...),
+  e_old_loop_same (the deprecated loop has the same shape).
 * `Detector.set_readout(times, start_time, non_destructive)` -> sr_policy: the body is the single store
   `self._readout_properties = ReadoutProperties(times=times, start_time=start_time,
   non_destructive=non_destructive)` (SRAlwaysNew), or that store under `if self._readout_properties is None:`
@@ -180,6 +193,9 @@ def _ctor_guards(fn: ast.FunctionDef) -> tuple[bool, list[str]]:
     return ndarray, guards
 
 
+scene_fresh: list = []      # set by _empty_table: Detector.empty replaces the Scene object (instead of scene.empty())
+
+
 def _empty_table(fn: ast.FunctionDef) -> tuple[list[str], list[str]]:
     if [a.arg for a in fn.args.args] != ["self", "reset"]:
         fail(fn, "Detector.empty signature")
@@ -195,10 +211,12 @@ def _empty_table(fn: ast.FunctionDef) -> tuple[list[str], list[str]]:
                     and isinstance(f.value.value, ast.Name) and f.value.value.id == "self" and f.value.attr in BUCKETS):
                 return BUCKETS[f.value.attr]
         if isinstance(st, ast.Assign) and ast.unparse(st) == "self.scene = Scene()":
+            scene_fresh.append(True)
             return "Scene"
         fail(st, "Detector.empty: unexpected statement")
 
     always, if_reset = [], []
+    scene_fresh.clear()
     for st in body_no_doc(fn):
         if isinstance(st, ast.If):
             if not (isinstance(st.test, ast.Name) and st.test.id == "reset") or st.orelse:
@@ -207,6 +225,395 @@ def _empty_table(fn: ast.FunctionDef) -> tuple[list[str], list[str]]:
         else:
             always.append(bucket_of(st))
     return always, if_reset
+
+
+# ------------------------------------------------------------------------------------------ containers
+
+# class -> (file, {data attribute -> piece}, attributes of __init__ that are not data)
+CONTAINERS = {
+    "Scene": ("pyxel/data_structure/scene.py", {"_source": "PScene"}, set()),
+    "Photon": ("pyxel/data_structure/photon.py", {"_array": "PPhoton"}, {"_num_rows", "_num_cols"}),
+    "Charge": ("pyxel/data_structure/charge.py", {"_array": "PChargeArr", "_frame": "PChargeFrame"},
+               {"_geo", "nextid", "columns", "EMPTY_FRAME"}),
+    "ArrayBase": ("pyxel/data_structure/array.py", {"_array": None}, {"_shape", "_numbytes"}),
+    "Pixel": ("pyxel/data_structure/pixel.py", {"_array": "PPixel"}, set()),
+    "Signal": ("pyxel/data_structure/signal.py", {"_array": "PSignal"}, set()),
+    "Image": ("pyxel/data_structure/image.py", {"_array": "PImage"}, set()),
+}
+BUCKET_CLASS = {"Scene": "Scene", "Photon": "Photon", "Charge": "Charge", "Pixel": "Pixel", "Signal": "Signal",
+                "Image": "Image"}
+# pieces whose empty value is None (the others: PPixel = zeros, PChargeArr = zeros, PChargeFrame = no row)
+NONE_PIECES = {"PPhoton", "PSignal", "PImage"}
+BOOKKEEPING = {"self.nextid = 0", "self._numbytes = 0"}
+ZERO = ("0", "0.0")
+
+
+def _is_reset_value(piece: str, v: ast.expr) -> bool:
+    t = ast.unparse(v)
+    if piece in NONE_PIECES:
+        return t == "None"
+    if piece == "PScene":
+        return isinstance(v, ast.Call) and ast.unparse(v.func) in ("xr.DataTree", "DataTree", "xarray.DataTree") \
+            and not v.args and all(kw.arg == "name" for kw in v.keywords)
+    if piece == "PPixel":
+        if not (isinstance(v, ast.Call) and ast.unparse(v.func) in ("np.zeros", "numpy.zeros")):
+            return False
+        shape = [ast.unparse(a) for a in v.args[:1]] + [ast.unparse(k.value) for k in v.keywords if k.arg == "shape"]
+        return shape == ["self._shape"] and all(k.arg in ("shape", "dtype") for k in v.keywords) and len(v.args) <= 1
+    if piece == "PChargeArr":
+        return t in ("np.zeros_like(self._array)", "np.zeros(self._array.shape)",
+                     "np.zeros((self._geo.row, self._geo.col), dtype=self.EXP_TYPE)",
+                     "np.zeros((self._geo.row, self._geo.col))", "np.zeros(self._array.shape, dtype=self.EXP_TYPE)")
+    if piece == "PChargeFrame":
+        return t in ("self.EMPTY_FRAME.copy()", "self.EMPTY_FRAME.copy(deep=True)",
+                     "pd.DataFrame(columns=self.columns, dtype=float)", "self._frame.iloc[0:0]")
+    return False
+
+
+def _reset_stmt(st: ast.stmt, pieces: dict) -> str | None:
+    """The piece a statement re-initialises; None for a bookkeeping statement; refuses anything else."""
+    if isinstance(st, ast.Pass) or isinstance(st, (ast.Import, ast.ImportFrom)) or ast.unparse(st) in BOOKKEEPING:
+        return None
+    if isinstance(st, ast.Expr) and isinstance(st.value, ast.Constant) and isinstance(st.value.value, str):
+        return None
+    tgt = val = None
+    if isinstance(st, ast.Assign) and len(st.targets) == 1:
+        tgt, val = st.targets[0], st.value
+    elif isinstance(st, ast.AnnAssign) and st.value is not None:
+        tgt, val = st.target, st.value
+    if tgt is not None:
+        t = ast.unparse(tgt)
+        for attr, piece in pieces.items():
+            if t == f"self.{attr}":
+                if not _is_reset_value(piece, val):
+                    fail(st, f"empty(): not a recognised empty value for {piece}")
+                return piece
+            # in-place zeroing of the charge array
+            if piece == "PChargeArr" and t in (f"self.{attr}[:]", f"self.{attr}[...]") and ast.unparse(val) in ZERO:
+                return piece
+    if isinstance(st, ast.Expr) and ast.unparse(st) in ("self._array.fill(0)", "self._array.fill(0.0)") \
+            and pieces.get("_array") == "PChargeArr":
+        return "PChargeArr"
+    fail(st, "empty(): unexpected statement")
+
+
+def _cond(test: ast.expr, pieces: dict) -> str:
+    if isinstance(test, ast.UnaryOp) and isinstance(test.op, ast.Not):
+        c = _cond(test.operand, pieces)
+        return {"CHolds": "CHoldsNot", "CHoldsNot": "CHolds"}[c.split()[0]] + " " + c.split()[1]
+    t = ast.unparse(test)
+    for attr, piece in pieces.items():
+        if piece in NONE_PIECES or piece == "PPixel":
+            if t == f"self.{attr} is None":
+                return f"CHoldsNot {piece}"
+            if t == f"self.{attr} is not None":
+                return f"CHolds {piece}"
+        if piece == "PChargeArr" and t in (f"self.{attr}.any()", f"np.any(self.{attr})", f"np.any(self.{attr} != 0)"):
+            return f"CHolds {piece}"
+        if piece == "PChargeFrame":
+            if t in (f"self.{attr}.empty", "self.frame_empty()", f"len(self.{attr}) == 0"):
+                return f"CHoldsNot {piece}"
+            if t in (f"len(self.{attr}) > 0", f"len(self.{attr}) != 0"):
+                return f"CHolds {piece}"
+    fail(test, "empty(): unknown test (only `holds something` tests of the container's own pieces are accepted)")
+
+
+def _branch(body, pieces) -> list[str]:
+    out = []
+    for st in body:
+        if isinstance(st, ast.If):
+            fail(st, "empty(): nested if")
+        p = _reset_stmt(st, pieces)
+        if p is not None:
+            out.append(p)
+    return out
+
+
+def _cprog(fn: ast.FunctionDef, pieces: dict) -> list:
+    """[[(cond, [piece])]]: the chains of an empty() method, in order."""
+    if [a.arg for a in fn.args.args] != ["self"] or fn.args.vararg or fn.args.kwarg or fn.args.kwonlyargs:
+        fail(fn, "empty() signature")
+    prog = []
+    for st in body_no_doc(fn):
+        if isinstance(st, ast.If):
+            chain, node = [], st
+            while True:
+                chain.append((_cond(node.test, pieces), _branch(node.body, pieces)))
+                if len(node.orelse) == 1 and isinstance(node.orelse[0], ast.If):
+                    node = node.orelse[0]
+                    continue
+                if node.orelse:
+                    chain.append(("CTrue", _branch(node.orelse, pieces)))
+                break
+            prog.append(chain)
+        elif isinstance(st, ast.Return) and st.value is None:
+            fail(st, "empty(): early return")
+        else:
+            p = _reset_stmt(st, pieces)
+            if p is not None:
+                prog.append([("CTrue", [p])])
+    return prog
+
+
+def _class(tree: ast.Module, name: str) -> ast.ClassDef:
+    c = [n for n in tree.body if isinstance(n, ast.ClassDef) and n.name == name]
+    if len(c) != 1:
+        fail(None, f"class {name}: found {len(c)}")
+    return c[0]
+
+
+def _check_init_attrs(cls: ast.ClassDef, pieces: dict, other: set) -> None:
+    """The attributes the class stores on its instances -- in __init__ or in any other method -- are the known ones:
+    a new data attribute would be a piece of state the model does not carry (and empty() might not reset)."""
+    inits = [n for n in cls.body if isinstance(n, ast.FunctionDef) and n.name == "__init__"]
+    if len(inits) != 1:
+        fail(cls, f"{cls.name}.__init__: found {len(inits)}")
+    # assignments that go through a property setter of the class (self.array = ..., self.array_3d = ...)
+    props = {n.name for n in cls.body if isinstance(n, ast.FunctionDef)
+             and any(ast.unparse(d) in ("property", f"{n.name}.setter") for d in n.decorator_list)} | {"array"}
+    for n in ast.walk(cls):
+        tg = []
+        if isinstance(n, ast.Assign):
+            tg = n.targets
+        elif isinstance(n, (ast.AnnAssign, ast.AugAssign)):
+            tg = [n.target]
+        elif isinstance(n, ast.Call) and ast.unparse(n.func) in ("setattr", "object.__setattr__") and n.args \
+                and ast.unparse(n.args[0]) == "self":
+            fail(n, f"{cls.name}: setattr on self")
+        for t in tg:
+            for t1 in (t.elts if isinstance(t, (ast.Tuple, ast.List)) else [t]):
+                if isinstance(t1, ast.Attribute) and isinstance(t1.value, ast.Name) and t1.value.id == "self":
+                    if t1.attr not in pieces and t1.attr not in other and t1.attr not in props:
+                        fail(n, f"{cls.name} stores an attribute the model does not know")
+
+
+def _container_prog(repo: Path, cname: str) -> list:
+    rel, pieces, other = CONTAINERS[cname]
+    cls = _class(parse(repo, rel), cname)
+    own = [n for n in cls.body if isinstance(n, ast.FunctionDef) and n.name == "empty"]
+    if cname in ("Pixel", "Signal", "Image"):
+        if [ast.unparse(b) for b in cls.bases] != ["ArrayBase"]:
+            fail(cls, f"{cname} must derive from ArrayBase only")
+        inits = [n for n in cls.body if isinstance(n, ast.FunctionDef) and n.name == "__init__"]
+        if len(inits) != 1 or [ast.unparse(x) for x in body_no_doc(inits[0])] != ["super().__init__(shape=(geo.row, geo.col))"]:
+            fail(cls, f"{cname}.__init__ must only call ArrayBase.__init__")
+        brel, bpieces, bother = CONTAINERS["ArrayBase"]
+        base = _class(parse(repo, brel), "ArrayBase")
+        _check_init_attrs(base, bpieces, bother)
+        _check_init_attrs(cls, {"_array": pieces["_array"]}, bother)
+        if not own:
+            own = [n for n in base.body if isinstance(n, ast.FunctionDef) and n.name == "empty"]
+    else:
+        if cls.bases:
+            fail(cls, f"{cname} must not have a base class")
+        _check_init_attrs(cls, pieces, other)
+    if len(own) != 1:
+        fail(cls, f"{cname}.empty: found {len(own)}")
+    return _cprog(own[0], pieces)
+
+
+def _scene_fresh(repo: Path) -> list:
+    """`self.scene = Scene()`: a new object; its constructor must create the one data attribute, empty."""
+    rel, pieces, other = CONTAINERS["Scene"]
+    cls = _class(parse(repo, rel), "Scene")
+    _check_init_attrs(cls, pieces, other)
+    init = [n for n in cls.body if isinstance(n, ast.FunctionDef) and n.name == "__init__"][0]
+    if [a.arg for a in init.args.args] != ["self"]:
+        fail(init, "Scene.__init__ signature")
+    got = [_reset_stmt(st, pieces) for st in body_no_doc(init)]
+    if [g for g in got if g] != ["PScene"]:
+        fail(init, "Scene.__init__ must create an empty _source")
+    return [[("CTrue", ["PScene"])]]
+
+
+def _read_stores(repo: Path) -> bool:
+    """Does reading the property Charge.array store the array derived from the particles into _array?"""
+    rel, _, _ = CONTAINERS["Charge"]
+    cls = _class(parse(repo, rel), "Charge")
+    fns = [n for n in cls.body if isinstance(n, ast.FunctionDef) and n.name == "array"
+           and any(ast.unparse(d) == "property" for d in n.decorator_list)]
+    if len(fns) != 1:
+        fail(cls, f"Charge.array property: found {len(fns)}")
+    body = [ast.unparse(st) for st in body_no_doc(fns[0])]
+    if body == ["if not self._frame.empty:\n    self._array = self.convert_df_to_array()", "return self._array"]:
+        return True
+    if body == ["if not self._frame.empty:\n    return self.convert_df_to_array()", "return self._array"]:
+        return False
+    fail(fns[0], "Charge.array: unexpected shape")
+
+
+DETECTOR_SUBCLASSES = {"CCD": "pyxel/detectors/ccd/ccd.py", "CMOS": "pyxel/detectors/cmos/cmos.py",
+                       "MKID": "pyxel/detectors/mkid/mkid.py", "APD": "pyxel/detectors/apd/apd.py"}
+
+
+def _check_subclass_empty(repo: Path) -> None:
+    for cname, rel in DETECTOR_SUBCLASSES.items():
+        cls = _class(parse(repo, rel), cname)
+        if [ast.unparse(b) for b in cls.bases] != ["Detector"]:
+            fail(cls, f"{cname} must derive from Detector")
+        own = [n for n in cls.body if isinstance(n, ast.FunctionDef) and n.name == "empty"]
+        if not own:
+            continue
+        if len(own) != 1 or [a.arg for a in own[0].args.args] != ["self", "reset"]:
+            fail(cls, f"{cname}.empty signature")
+        body = body_no_doc(own[0])
+        if not body or ast.unparse(body[0]) not in ("super().empty(reset)", "super().empty(reset=reset)"):
+            fail(own[0], f"{cname}.empty must start with super().empty(reset)")
+        for st in body[1:]:
+            for n in ast.walk(st):
+                if isinstance(n, ast.Attribute) and isinstance(n.value, ast.Name) and n.value.id == "self" and \
+                        n.attr.lstrip("_") in BUCKETS:
+                    fail(st, f"{cname}.empty touches a container of the base detector")
+                if isinstance(n, ast.Raise):
+                    fail(st, f"{cname}.empty: raises")
+
+
+# ------------------------------------------------------------------------------------------ the run loop
+
+CLOCK_ATTRS = {"time": 0, "time_step": 1, "pipeline_count": 2}
+
+
+def _flatten_with(fn):
+    """Statements of the function body with the bodies of top-level `with` blocks spliced in."""
+    out = []
+    for st in body_no_doc(fn):
+        if isinstance(st, ast.With):
+            out += list(st.body)
+        else:
+            out.append(st)
+    return out
+
+
+def _reset_policy(arg, loop_body, call_stmt) -> str:
+    """Which readouts make the per-step detector.empty(<arg>) a full reset."""
+    ND = "detector.non_destructive_readout"
+    alt = (ND, "detector.readout_properties.non_destructive")
+    if arg is None:
+        return "LAlways"
+    t = ast.unparse(arg)
+    if t in ("True", "reset=True"):
+        return "LAlways"
+    if t == "False":
+        return "LNever"
+    if t in tuple(f"not {a}" for a in alt):
+        return "LIfDestructive"
+    if t in alt:
+        return "LIfNonDestructive"
+    if isinstance(arg, ast.Name):
+        # the one definition of the local variable, placed in the loop body before the call
+        defs = []
+        for st in loop_body:
+            if st is call_stmt:
+                break
+            if isinstance(st, (ast.Assign, ast.AnnAssign)):
+                tg = st.targets if isinstance(st, ast.Assign) else [st.target]
+                if any(ast.unparse(x) == arg.id for x in tg) and st.value is not None:
+                    defs.append(_reset_policy(st.value, [], None))
+            elif isinstance(st, ast.If) and any(isinstance(n, ast.Name) and n.id == arg.id and isinstance(n.ctx, ast.Store)
+                                                for n in ast.walk(st)):
+                # if <nd>: v = False  else: v = True   (or the other way round)
+                ok = (ast.unparse(st.test) in alt and len(st.body) == 1 and len(st.orelse) == 1
+                      and all(isinstance(b, ast.Assign) and ast.unparse(b.targets[0]) == arg.id
+                              and isinstance(b.value, ast.Constant) and isinstance(b.value.value, bool)
+                              for b in (st.body[0], st.orelse[0])))
+                if not ok:
+                    fail(st, "run loop: unexpected definition of the reset flag")
+                a, b = st.body[0].value.value, st.orelse[0].value.value
+                defs.append({(False, True): "LIfDestructive", (True, False): "LIfNonDestructive",
+                             (True, True): "LAlways", (False, False): "LNever"}[(a, b)])
+        if len(defs) != 1:
+            fail(arg, f"run loop: {len(defs)} definitions of the reset flag before detector.empty")
+        return defs[0]
+    fail(arg, "run loop: unknown argument of the per-step detector.empty")
+
+
+def loop_shape(fn: ast.FunctionDef) -> tuple[bool, str]:
+    """(is there a full detector.empty() between set_readout and the loop, reset policy of the per-step empty).
+    The loop must iterate enumerate(zip(rp.times, rp.steps)) and store time / time_step / pipeline_count from the loop
+    variables, then call detector.empty(..), all before processor.run_pipeline."""
+    top = _flatten_with(fn)
+    loops = [k for k, st in enumerate(top) if isinstance(st, (ast.For, ast.While))]
+    if len(loops) != 1 or not isinstance(top[loops[0]], ast.For):
+        fail(fn, f"{fn.name}: expected exactly one for-loop over the readouts")
+    k = loops[0]
+    loop = top[k]
+    sr = [j for j, st in enumerate(top[:k]) if isinstance(st, ast.Expr) and isinstance(st.value, ast.Call)
+          and ast.unparse(st.value.func) == "detector.set_readout"]
+    if len(sr) != 1:
+        fail(fn, f"{fn.name}: set_readout before the loop")
+    init_reset = False
+    for st in top[sr[0] + 1:k]:
+        for n in ast.walk(st):
+            if isinstance(n, ast.Call) and ast.unparse(n.func) == "detector.empty":
+                if not (isinstance(st, ast.Expr) and st.value is n) or ast.unparse(n) not in (
+                        "detector.empty()", "detector.empty(True)", "detector.empty(reset=True)"):
+                    fail(st, f"{fn.name}: the reset before the loop must be the plain statement detector.empty()")
+                init_reset = True
+    for st in top[:sr[0]]:
+        if any(isinstance(n, ast.Call) and ast.unparse(n.func) == "detector.empty" for n in ast.walk(st)):
+            fail(st, f"{fn.name}: detector.empty before set_readout")
+    # header
+    tgt = ast.unparse(loop.target)
+    it = loop.iter
+    names = None
+    if (isinstance(loop.target, ast.Tuple) and len(loop.target.elts) == 2 and isinstance(loop.target.elts[0], ast.Name)
+            and isinstance(loop.target.elts[1], ast.Tuple) and len(loop.target.elts[1].elts) == 2
+            and all(isinstance(e, ast.Name) for e in loop.target.elts[1].elts)):
+        names = (loop.target.elts[1].elts[0].id, loop.target.elts[1].elts[1].id, loop.target.elts[0].id)
+    ok_iter = (isinstance(it, ast.Call) and ast.unparse(it.func) == "enumerate" and len(it.args) == 1 and not it.keywords
+               and isinstance(it.args[0], ast.Call) and ast.unparse(it.args[0].func) == "zip"
+               and [ast.unparse(a) for a in it.args[0].args] == ["detector.readout_properties.times",
+                                                                 "detector.readout_properties.steps"]
+               and all(kw.arg == "strict" for kw in it.args[0].keywords))
+    if names is None or not ok_iter or loop.orelse:
+        fail(loop, f"{fn.name}: the loop must be `for i, (time, step) in enumerate(zip(rp.times, rp.steps))`: {tgt}")
+    # body: the three stores, the per-step empty, then the pipeline
+    body = list(loop.body)
+    run = [j for j, st in enumerate(body) if any(isinstance(n, ast.Call) and ast.unparse(n.func) == "processor.run_pipeline"
+                                                  for n in ast.walk(st))]
+    if len(run) != 1 or not isinstance(body[run[0]], ast.Expr):
+        fail(loop, f"{fn.name}: processor.run_pipeline must be one plain statement of the loop body")
+    stores, empties = {}, []
+    for st in body[:run[0]]:
+        if isinstance(st, ast.Assign) and len(st.targets) == 1:
+            t = ast.unparse(st.targets[0])
+            for pre in ("detector.readout_properties.", "detector."):
+                if t.startswith(pre) and t[len(pre):] in CLOCK_ATTRS and "." not in t[len(pre):]:
+                    a = t[len(pre):]
+                    if a in stores or ast.unparse(st.value) != names[CLOCK_ATTRS[a]]:
+                        fail(st, f"{fn.name}: clock store")
+                    stores[a] = True
+                    break
+            else:
+                if t.startswith("detector."):
+                    fail(st, f"{fn.name}: unexpected store into the detector before the models run")
+            continue
+        calls = [n for n in ast.walk(st) if isinstance(n, ast.Call) and ast.unparse(n.func).startswith("detector.")]
+        for n in calls:
+            f = ast.unparse(n.func)
+            if f == "detector.empty":
+                if not (isinstance(st, ast.Expr) and st.value is n) or len(n.args) + len(n.keywords) > 1 or \
+                        any(kw.arg != "reset" for kw in n.keywords):
+                    fail(st, f"{fn.name}: the per-step detector.empty must be one plain statement")
+                arg = n.args[0] if n.args else (n.keywords[0].value if n.keywords else None)
+                empties.append(_reset_policy(arg, body, st))
+            elif not f.startswith("detector.readout_properties") and f not in ("detector.non_destructive_readout",):
+                fail(st, f"{fn.name}: unexpected call on the detector before the models run")
+            elif f.startswith("detector.readout_properties."):
+                fail(st, f"{fn.name}: unexpected call on the readout properties before the models run")
+    if set(stores) != set(CLOCK_ATTRS):
+        fail(loop, f"{fn.name}: the loop must store time, time_step and pipeline_count from its loop variables")
+    if len(empties) != 1:
+        fail(loop, f"{fn.name}: {len(empties)} per-step detector.empty calls before the models run")
+    for st in body[run[0] + 1:]:
+        for n in ast.walk(st):
+            if isinstance(n, ast.Call) and ast.unparse(n.func) in ("detector.empty", "detector.set_readout"):
+                fail(st, f"{fn.name}: detector.empty / set_readout after the models of a step")
+            if isinstance(n, ast.Attribute) and isinstance(n.ctx, ast.Store) and ast.unparse(n).startswith("detector.") \
+                    and ast.unparse(n).split(".")[-1] in CLOCK_ATTRS:
+                fail(st, f"{fn.name}: clock store after the models of a step")
+    return init_reset, empties[0]
+
 
 
 SR_PARAMS = ["times", "start_time", "non_destructive"]
@@ -297,17 +704,35 @@ def extract(repo: Path) -> dict:
     g_rp = _collect(body[1:], "times_1d", "start_time", lambda st: _calls(st, "calculate_steps"))
     # nothing after the steps computation may be validation; the remaining statements are plain stores
     always, if_reset = _empty_table(find_func(t_det, "empty", "Detector"))
+    progs = {}
+    for b, cname in BUCKET_CLASS.items():
+        if b == "Scene" and scene_fresh:
+            progs[b] = _scene_fresh(repo)
+        else:
+            progs[b] = _container_prog(repo, cname)
+    read_stores = _read_stores(repo)
+    _check_subclass_empty(repo)
     sr = _set_readout_policy(find_func(t_det, "set_readout", "Detector"))
-    _check_run_pipeline_call(parse(repo, "pyxel/exposure/exposure.py"))
+    t_exp = parse(repo, "pyxel/exposure/exposure.py")
+    _check_run_pipeline_call(t_exp)
+    init_reset, loop_reset = loop_shape(find_func(t_exp, "run_pipeline"))
+    old_same = loop_shape(find_func(t_exp, "_run_exposure_pipeline_deprecated")) == (init_reset, loop_reset)
     return dict(g_ndarray=g_ndarray, g_ctor=g_ctor, g_set_times=g_set_times, g_set_start=g_set_start, g_rp=g_rp,
-                e_always=always, e_if_reset=if_reset, sr=sr)
+                e_always=always, e_if_reset=if_reset, progs=progs, read_stores=read_stores, sr=sr,
+                init_reset=init_reset, loop_reset=loop_reset, old_same=old_same)
 
 
 def _lst(xs) -> str:
+    xs = list(xs)
     return "[" + "; ".join(xs) + "]" if xs else "nil"
 
 
+def _cprog_txt(prog) -> str:
+    return _lst(_lst(f"({c}, {_lst(ps)})" for c, ps in chain) for chain in prog)
+
+
 def render(t: dict) -> str:
+    progs = "".join(f"     e_{b.lower()} := {_cprog_txt(t['progs'][b])};\n" for b in BUCKET_CLASS)
     return (HEADER +
             "From Coq Require Import List.\nFrom PyxelV Require Import Model.Exposure.\nImport ListNotations.\n"
             "Definition src_guards : guard_table :=\n"
@@ -317,7 +742,11 @@ def render(t: dict) -> str:
             f"     g_set_start := {_lst(t['g_set_start'])};\n"
             f"     g_rp := {_lst(t['g_rp'])} |}}.\n"
             "Definition src_empty : empty_table :=\n"
-            f"  {{| e_always := {_lst(t['e_always'])}; e_if_reset := {_lst(t['e_if_reset'])} |}}.\n"
+            f"  {{| e_always := {_lst(t['e_always'])}; e_if_reset := {_lst(t['e_if_reset'])};\n"
+            f"{progs}"
+            f"     e_read_stores := {'true' if t['read_stores'] else 'false'};\n"
+            f"     e_init_reset := {'true' if t['init_reset'] else 'false'}; e_loop_reset := {t['loop_reset']}; "
+            f"e_old_loop_same := {'true' if t['old_same'] else 'false'} |}}.\n"
             f"Definition src_set_readout : sr_policy := {t['sr']}.\n")
 
 
@@ -332,4 +761,8 @@ FALLBACK = render(dict(
     g_set_times=["GNdim1", "GNonEmpty", "GFirstNonZero", "GStartLtFirst"],
     g_set_start=["GStartLtFirst"],
     g_rp=["GNdim1", "GFirstNonZero", "GStartLtFirst", "GIncreasing"],
-    e_always=["Scene", "Photon", "Charge", "Signal", "Image"], e_if_reset=["Pixel"], sr="SRAlwaysNew"))
+    e_always=["Scene", "Photon", "Charge", "Signal", "Image"], e_if_reset=["Pixel"],
+    progs=dict(Scene=[[("CTrue", ["PScene"])]], Photon=[[("CTrue", ["PPhoton"])]],
+               Charge=[[("CHolds PChargeFrame", ["PChargeFrame"])], [("CTrue", ["PChargeArr"])]],
+               Pixel=[[("CTrue", ["PPixel"])]], Signal=[[("CTrue", ["PSignal"])]], Image=[[("CTrue", ["PImage"])]]),
+    read_stores=True, sr="SRAlwaysNew", init_reset=True, loop_reset="LIfDestructive", old_same=True))
